@@ -708,6 +708,41 @@ theorem C20_witness_sorted_keys (c : Cfg) (h : c.replayOrderPreserved = false) :
 example : (runCC ⟨true, false, true, false, true, true, true, true⟩ lazyDyn Server.empty digitOps)[4]? = some (.ok [(9, "1"), (10, "1"), (11, "5")]) := by decide
 example : (runU lazyDyn UServer.empty digitOps)[4]? = some (.ok [(9, "5"), (10, "5"), (11, "5")]) := by decide
 
+/-! ### crash points between the file operations of a write (wave 10) -/
+
+theorem fsRun_keeps_committed (new : Persist) : ∀ (ops : List FsOp) (dk : Disk), dk.1.isSome = true →
+    ops.contains .removeCommitted = false → (fsRun new dk ops).1.isSome = true
+  | [], _, h, _ => h
+  | op :: ops, dk, h, hn => by
+    simp only [List.contains_cons, Bool.or_eq_false_iff] at hn
+    simp only [fsRun, List.foldl_cons]
+    apply fsRun_keeps_committed new ops
+    · cases op <;> simp_all [fsStep]
+    · exact hn.2
+
+/-- An atomic commit: whatever prefix of the write's operations has been executed when the process dies, an instance that
+had a committed state file before the write began still has one (the old one, or the new one after the rename). -/
+theorem commit_atomic_never_loses (ops : List FsOp) (h : commitAtomic ops = true) (old new : Persist) (tmp : Option Tmp) (k : Nat) :
+    (fsRun new (some old, tmp) (ops.take k)).1.isSome = true := by
+  apply fsRun_keeps_committed new _ _ rfl
+  simp only [commitAtomic, Bool.and_eq_true, Bool.not_eq_true'] at h
+  have := h.1
+  cases hc : (ops.take k).contains FsOp.removeCommitted with
+  | false => rfl
+  | true =>
+    have hm : FsOp.removeCommitted ∈ ops := List.mem_of_mem_take (List.contains_iff_mem.mp hc)
+    rw [List.contains_iff_mem.mpr hm] at this
+    cases this
+
+/-- remove-then-rename: after the remove and before the rename only the complete temporary file is there -/
+def removeThenRename : List FsOp := [.writeTmp, .fsyncTmp, .removeCommitted, .renameOnto]
+
+theorem remove_then_rename_loses (old new : Persist) :
+    fsRun new (some old, none) (removeThenRename.take 3) = (none, some (.complete new)) := rfl
+
+example : commitAtomic removeThenRename = false := by decide
+example : commitAtomic [.writeTmp, .fsyncTmp, .renameOnto] = true := by decide
+
 /-! ### the incremental snapshot (wave 9) -/
 
 /-- two sessions on one instance, both log step 1024 — with different settings -/
@@ -870,6 +905,8 @@ example : runCC ⟨true, false, true, true, true, true, true, true⟩ histDyn Se
 #print axioms C20_witness_temp_first
 #print axioms C20_witness_client_gone
 #print axioms C20_witness_stale_snapshot
+#print axioms commit_atomic_never_loses
+#print axioms remove_then_rename_loses
 #print axioms sessionsRun_good
 #print axioms runCE_good
 #print axioms noStartupFailure_of_skip
